@@ -906,7 +906,7 @@ def elem_of(shape, uid, start=0):
     if k == "enumerate":
         a, n = elem_of(shape[1], uid, start)
         return ("tuple", (("idx", uid), a)), n
-    if k in ("take", "rev"):
+    if k in ("take", "rev", "revall"):
         return elem_of(shape[1], uid, start)
     if k == "map":
         # body refers to its own binder; instantiate it with the outer elements
@@ -961,7 +961,7 @@ def _unroll_info(shape):
         a1, l1 = _unroll_info(shape[1])
         a2, l2 = _unroll_info(shape[2])
         return a1 and a2, l1 or l2
-    if k in ("enumerate", "take"):
+    if k in ("enumerate", "take", "rev"):
         return _unroll_info(shape[1])
     if k == "map":
         return _unroll_info(shape[3])
@@ -1009,7 +1009,14 @@ def leaves_of(shape):
         return leaves_of(shape[1]) + leaves_of(shape[2])
     if k in ("enumerate",):
         return leaves_of(shape[1])
-    if k in ("take", "rev"):
+    if k == "take":
+        return leaves_of(shape[1])
+    if k == "rev":
+        # the element at iteration i is the inner element at position n-1-i: a *different* leaf
+        return [("revd", l) for l in leaves_of(shape[1])]
+    if k == "revall":
+        # a loop that walks its whole (possibly zipped / mapped) source backwards: every leaf is visited in the same
+        # reversed order, so the summary is expressed over the leaves in their own order and flagged as reversed
         return leaves_of(shape[1])
     if k == "map":
         return leaves_of(shape[3])
@@ -1032,7 +1039,7 @@ def shape_len(eng, shape):
         if isinstance(a, int) and isinstance(b, int):
             return min(a, b)
         return None
-    if k == "rev":
+    if k in ("rev", "revall"):
         return shape_len(eng, shape[1])
     if k in ("enumerate", "map"):
         return shape_len(eng, shape[1] if k == "enumerate" else shape[3])
@@ -1228,6 +1235,8 @@ def closure_loop(ctx, shape, body_fn, early_fn=None):
     executed iteration by iteration.  `early_fn(result)` (optional) gives the BDD condition under which the iteration
     stops early; returns (uid or None, last body result)."""
     eng, st = ctx.eng, ctx.st
+    if shape[0] == "rev":
+        shape = ("revall", shape[1])
     n = shape_len(eng, shape)
     if isinstance(n, int) and n <= unroll_limit(shape) and unrollable(shape) and early_fn is None:
         puid = next(eng.nuid)
@@ -1761,6 +1770,8 @@ def m_next(ctx, args):
         shape = cur[1]
     if shape is None:
         return ("call", ctx.oq, (cur,))
+    if shape[0] == "rev":
+        shape = ("revall", shape[1])
     if info.src is not None and info.src != shape:
         return ("call", ctx.oq, (cur,))
     info.kind = "iter"
